@@ -10,6 +10,7 @@ import (
 	"strings"
 	"sync"
 	"testing"
+	"time"
 
 	"verifharness/internal/vh"
 
@@ -75,6 +76,21 @@ func (w *world) payerName(primary, secondary util.Uint160) string {
 }
 
 // mempool.Feer
+// gatedFeer is the world's Feer whose first BlockHeight call waits for the harness (a scheduler gate).
+type gatedFeer struct {
+	*world
+	entered, release chan struct{}
+	once             sync.Once
+}
+
+func (g *gatedFeer) BlockHeight() uint32 {
+	g.once.Do(func() {
+		close(g.entered)
+		<-g.release
+	})
+	return g.world.BlockHeight()
+}
+
 func (w *world) FeePerByte() int64   { return w.fpb }
 func (w *world) BlockHeight() uint32 { return w.h }
 func (w *world) GetUtilityTokenBalance(p, s util.Uint160) *big.Int {
@@ -234,36 +250,45 @@ func runHistory(res *vh.Result, tr *vh.Trace, src string, hist []Step) {
 			switch st.Op {
 			case "add":
 				if conc {
-					// the same transaction offered by several producers (P2P relays, RPC) at the same moment
-					var wg sync.WaitGroup
-					const producers = 4
-					errs := make([]error, producers)
-					pans := make([]any, producers)
-					start := make(chan struct{})
-					for g := 0; g < producers; g++ {
-						wg.Add(1)
-						go func(g int) {
-							defer wg.Done()
-							defer func() { pans[g] = recover() }()
-							<-start
-							errs[g] = mp.Add(w.txs[st.Tx-1], w)
-						}(g)
+					// the same transaction offered by two producers (P2P relay and RPC): producer A is held where Add asks the
+					// ledger for its height (before the pool's critical section), producer B then adds the transaction, A goes on
+					ga := &gatedFeer{world: w, entered: make(chan struct{}), release: make(chan struct{})}
+					var errA, errB error
+					var panA, panB any
+					doneA := make(chan struct{})
+					go func() {
+						defer close(doneA)
+						defer func() { panA = recover() }()
+						errA = mp.Add(w.txs[st.Tx-1], ga)
+					}()
+					select {
+					case <-ga.entered:
+					case <-doneA: // Add did not ask for the height first: nothing to hold
+					case <-time.After(2 * time.Second):
 					}
-					close(start)
-					wg.Wait()
-					oks := 0
-					opErr = errs[0]
-					for g := range errs {
-						if pans[g] != nil {
-							panic(fmt.Sprint(pans[g]))
-						}
-						if errs[g] == nil {
-							oks++
-							opErr = nil
-						}
+					doneB := make(chan struct{})
+					go func() {
+						defer close(doneB)
+						defer func() { panB = recover() }()
+						errB = mp.Add(w.txs[st.Tx-1], w)
+					}()
+					select {
+					case <-doneB:
+					case <-time.After(2 * time.Second): // B waits for something A holds: let A go on (scheduling only, no verdict)
+						res.Inc("concurrent_add_b_blocked", 1)
 					}
-					if oks > 1 {
-						res.Inc("concurrent_adds_several_ok", 1)
+					close(ga.release)
+					<-doneA
+					<-doneB
+					if panA != nil || panB != nil {
+						panic(fmt.Sprint(panA, panB))
+					}
+					opErr = errA
+					if errB == nil {
+						opErr = nil
+					}
+					if errA == nil && errB == nil {
+						res.Inc("concurrent_adds_both_ok", 1)
 					}
 					res.Inc("concurrent_add_rounds", 1)
 				} else {
@@ -413,7 +438,7 @@ func TestDriver(t *testing.T) {
 	for i := 0; i < nr; i++ {
 		u := randomUniverse(r)
 		runHistory(res, tr, fmt.Sprintf("rnd-%d", i), u)
-		if i%2 == 0 { // the same history with every addition made by several producers at once
+		if i%2 == 0 { // the same history with every addition made by two producers, one held before the critical section
 			runHistory(res, tr, fmt.Sprintf("rnd-%dc", i), u)
 		}
 	}
